@@ -682,6 +682,7 @@ namespace
         const bool         f_noise   = (cd.flags & 1) != 0;  // build+run noise programs between repetitions
         const bool         f_overlap = (cd.flags & 2) != 0;  // build all reuse executors before running any
         const bool         f_tbuild  = (cd.flags & 4) != 0;  // thread executors come from fresh builders (else the shared one)
+        const bool         f_tfirst  = (cd.flags & 16) != 0; // the thread phase runs before the sequential phases
         const bool         concurrent_builds = std::getenv("HGV_REPRO_CONCURRENT_BUILDS") != nullptr;
         const bool         f_intern  = (cd.flags & 8) != 0;  // intern more types between repetitions
         const Prog        *mainp     = &cd.progs[0];
@@ -725,10 +726,17 @@ namespace
                 run_unit(u);
                 emit(u);
             }
-            // ---- phase 1: R repetitions from ONE builder
-            {
-                GraphExecutorBuilder shared = make_builder(mainp);
-                std::vector<Unit>    units;
+            // the builders every later phase shares; the companion builder exists only when the case has a companion
+            GraphExecutorBuilder                shared = make_builder(mainp);
+            std::optional<GraphExecutorBuilder> comp_shared;
+            if (mainp->comp.present) { comp_shared.emplace(make_comp_builder(mainp)); }
+            std::int64_t      crep = 0;
+            std::vector<Unit> units;  // phase 1 executors stay alive until the end of the case
+            std::vector<Unit> tu;     // so do the thread executors
+
+            // ---- phases 1 + 2 + companion, sequential
+            auto sequential_phases = [&] {
+                // phase 1: R repetitions from ONE builder
                 for (std::int64_t r = 0; r < cd.R; ++r) { units.push_back(new_unit(0, false, 40, rep++, 1)); }
                 if (f_overlap) { for (Unit &u : units) { u.executor.emplace(shared.make_executor()); } }
                 for (std::int64_t r = 0; r < cd.R; ++r)
@@ -740,7 +748,7 @@ namespace
                     if (f_noise) { noise_run((std::size_t)r); }
                     if (f_intern) { intern_more_types(ordinal); }
                 }
-                // ---- phase 2: F repetitions from fresh builders (the shared builder and its executors are still alive)
+                // phase 2: F repetitions from fresh builders (the shared builder and its executors are still alive)
                 for (std::int64_t f = 0; f < cd.F; ++f)
                 {
                     GraphExecutorBuilder eb = make_builder(mainp);
@@ -751,12 +759,9 @@ namespace
                     if (f_noise) { noise_run((std::size_t)(cd.R + f)); }
                     if (f_intern) { intern_more_types(ordinal); }
                 }
-                // ---- companion graph, sequentially: twice from one builder, once fresh, noise in between
-                std::optional<GraphExecutorBuilder> comp_shared;
-                std::int64_t                        crep = 0;
+                // companion graph: twice from one builder, once fresh, noise in between
                 if (mainp->comp.present)
                 {
-                    comp_shared.emplace(make_comp_builder(mainp));
                     for (int k = 0; k < 2; ++k)
                     {
                         Unit u = new_unit(0, true, 42, crep++, 1);
@@ -771,89 +776,94 @@ namespace
                     run_unit(u);
                     emit(u);
                 }
-                // ---- phase 3: T threads; even threads run the main program (every 4th of them the companion), odd ones noise
-                if (cd.T > 0)
+            };
+
+            // ---- phase 3: T executors running concurrently, one thread each
+            auto thread_phase = [&] {
+                if (cd.T <= 0) { return; }
+                for (std::int64_t j = 0; j < cd.T; ++j)
                 {
-                    std::vector<Unit> tu;
-                    for (std::int64_t j = 0; j < cd.T; ++j)
+                    // thread j runs: 0 main, 1 noise, 2 companion, 3 main, 4 companion (else noise), 5 noise, 6 main,
+                    // 7 companion; companion -> main when the case has none, noise -> main when there is no noise
+                    static const char pattern[8] = {'M', 'N', 'C', 'M', 'D', 'N', 'M', 'C'};
+                    char              kind       = pattern[j % 8];
+                    if (kind == 'D') { kind = mainp->comp.present ? 'C' : 'N'; }
+                    if (kind == 'C' && !mainp->comp.present) { kind = 'M'; }
+                    if (kind == 'N' && m == 0) { kind = 'M'; }
+                    if (kind == 'N')
                     {
-                        // thread j runs: 0 main, 1 noise, 2 companion, 3 main, 4 companion (else noise), 5 noise, 6 main,
-                        // 7 companion; companion -> main when the case has none, noise -> main when there is no noise
-                        static const char pattern[8] = {'M', 'N', 'C', 'M', 'D', 'N', 'M', 'C'};
-                        char              kind       = pattern[j % 8];
-                        if (kind == 'D') { kind = mainp->comp.present ? 'C' : 'N'; }
-                        if (kind == 'C' && !mainp->comp.present) { kind = 'M'; }
-                        if (kind == 'N' && m == 0) { kind = 'M'; }
-                        if (kind == 'N')
-                        {
-                            const std::size_t idx = 1 + (std::size_t)(j / 2) % m;
-                            tu.push_back(new_unit(idx, false, 41, (std::int64_t)idx, noise_count++));
-                        }
-                        else if (kind == 'C') { tu.push_back(new_unit(0, true, 42, crep++, 3)); }
-                        else { tu.push_back(new_unit(0, false, 40, rep++, 3)); }
+                        const std::size_t idx = 1 + (std::size_t)(j / 2) % m;
+                        tu.push_back(new_unit(idx, false, 41, (std::int64_t)idx, noise_count++));
                     }
-                    // Executors are BUILT on this thread, one after the other (flag 4: each from its own fresh
-                    // builder instead of the shared one), and only RUN concurrently: C07 speaks of executors
-                    // running at the same time; the runtime-type registries of node.cpp / graph.cpp /
-                    // executor.cpp are not guarded, so concurrent BUILDS are outside the contract
-                    // (HGV_REPRO_CONCURRENT_BUILDS=1 builds inside the threads to show that; see docs/notes-repro.md).
-                    if (!concurrent_builds)
+                    else if (kind == 'C') { tu.push_back(new_unit(0, true, 42, crep++, 3)); }
+                    else { tu.push_back(new_unit(0, false, 40, rep++, 3)); }
+                }
+                // Executors are BUILT on this thread, one after the other (flag 4: each from its own fresh
+                // builder instead of the shared one), and only RUN concurrently: C07 speaks of executors
+                // running at the same time; the runtime-type registries of node.cpp / graph.cpp /
+                // executor.cpp are not guarded, so concurrent BUILDS are outside the contract
+                // (HGV_REPRO_CONCURRENT_BUILDS=1 builds inside the threads to show that; see docs/notes-repro.md).
+                if (!concurrent_builds)
+                {
+                    for (Unit &u : tu)
                     {
-                        for (Unit &u : tu)
+                        const Prog *p = &cd.progs[u.prog];
+                        if (f_tbuild)
                         {
-                            const Prog *p = &cd.progs[u.prog];
-                            if (f_tbuild)
+                            u.own_builder.emplace(u.comp ? make_comp_builder(p) : make_builder(p));
+                            u.executor.emplace(u.own_builder->make_executor());
+                        }
+                        else if (u.comp) { u.executor.emplace(comp_shared->make_executor()); }
+                        else if (u.prog == 0) { u.executor.emplace(shared.make_executor()); }
+                        else
+                        {
+                            if (!noise_builders[u.prog]) { noise_builders[u.prog].emplace(make_builder(p)); }
+                            u.executor.emplace(noise_builders[u.prog]->make_executor());
+                        }
+                    }
+                }
+                std::atomic<int>         ready{0};
+                std::atomic<bool>        go{false};
+                std::vector<std::string> errors(tu.size());
+                std::vector<std::thread> threads;
+                for (std::size_t j = 0; j < tu.size(); ++j)
+                {
+                    threads.emplace_back([&, j] {
+                        Unit &u = tu[j];
+                        ready.fetch_add(1);
+                        while (!go.load(std::memory_order_acquire)) { std::this_thread::yield(); }
+                        try
+                        {
+                            if (concurrent_builds)
                             {
+                                const Prog *p = &cd.progs[u.prog];
                                 u.own_builder.emplace(u.comp ? make_comp_builder(p) : make_builder(p));
                                 u.executor.emplace(u.own_builder->make_executor());
                             }
-                            else if (u.comp) { u.executor.emplace(comp_shared->make_executor()); }
-                            else if (u.prog == 0) { u.executor.emplace(shared.make_executor()); }
-                            else
-                            {
-                                if (!noise_builders[u.prog]) { noise_builders[u.prog].emplace(make_builder(p)); }
-                                u.executor.emplace(noise_builders[u.prog]->make_executor());
-                            }
+                            run_unit(u);
                         }
-                    }
-                    std::atomic<int>         ready{0};
-                    std::atomic<bool>        go{false};
-                    std::vector<std::string> errors(tu.size());
-                    std::vector<std::thread> threads;
-                    for (std::size_t j = 0; j < tu.size(); ++j)
-                    {
-                        threads.emplace_back([&, j] {
-                            Unit &u = tu[j];
-                            ready.fetch_add(1);
-                            while (!go.load(std::memory_order_acquire)) { std::this_thread::yield(); }
-                            try
-                            {
-                                if (concurrent_builds)
-                                {
-                                    const Prog *p = &cd.progs[u.prog];
-                                    u.own_builder.emplace(u.comp ? make_comp_builder(p) : make_builder(p));
-                                    u.executor.emplace(u.own_builder->make_executor());
-                                }
-                                run_unit(u);
-                            }
-                            catch (const std::exception &e) { errors[j] = e.what(); }
-                        });
-                    }
-                    while (ready.load() < (int)tu.size()) { std::this_thread::yield(); }
-                    go.store(true, std::memory_order_release);
-                    for (auto &t : threads) { t.join(); }
-                    for (std::size_t j = 0; j < tu.size(); ++j)
-                    {
-                        if (!errors[j].empty())
-                        {
-                            tu[j].ctx.out.line({18, 2});
-                            std::fprintf(stderr, "thread %zu error: %s\n", j, errors[j].c_str());
-                        }
-                        emit(tu[j]);
-                    }
-                    // executors are destroyed here, on the main thread, after all runs finished
+                        catch (const std::exception &e) { errors[j] = e.what(); }
+                    });
                 }
-            }
+                while (ready.load() < (int)tu.size()) { std::this_thread::yield(); }
+                go.store(true, std::memory_order_release);
+                for (auto &t : threads) { t.join(); }
+                for (std::size_t j = 0; j < tu.size(); ++j)
+                {
+                    if (!errors[j].empty())
+                    {
+                        tu[j].ctx.out.line({18, 2});
+                        std::fprintf(stderr, "thread %zu error: %s\n", j, errors[j].c_str());
+                    }
+                    emit(tu[j]);
+                }
+            };
+
+            // flag 16: the concurrent phase comes FIRST, so the first use ever of the shared builders' node / graph
+            // types happens on several threads at once (per-type lazy initialisation would be hit concurrently)
+            if (f_tfirst) { thread_phase(); sequential_phases(); }
+            else { sequential_phases(); thread_phase(); }
+            // all executors are destroyed here, on the main thread, after every run finished
         }
         catch (const std::exception &e)
         {
